@@ -21,7 +21,7 @@ from .c18_cluster import bound_check
 OCAML = ["cluster"]
 GO = ["cluster"]
 PROP = "props/C16.v"
-PROOFS = ["proofs/ClusterLive.v", "model/ClusterGo.v", "proofs/ClusterPlan.v", "proofs/ClusterFix.v", "proofs/ClusterFixPlan.v", "proofs/ClusterRun.v",
+PROOFS = ["proofs/ClusterLive.v", "proofs/ClusterTable.v", "model/ClusterGo.v", "model/ClusterMon.v", "proofs/ClusterMonP.v", "proofs/ClusterPlan.v", "proofs/ClusterFix.v", "proofs/ClusterFixPlan.v", "proofs/ClusterRun.v",
           "proofs/ClusterInv.v", "proofs/ClusterStep.v", "proofs/ClusterMain.v", "proofs/ClusterRound.v",
           "proofs/ClusterRoundB.v", "proofs/ClusterRoundC.v", "proofs/ClusterHist.v", "proofs/ClusterFsm.v",
           "model/Cluster.v", "model/ClusterLTS.v", "lib/LTS.v"]
@@ -150,8 +150,31 @@ def collides(ids):
     return sorted(i for i in ids if i + SFX in ids)
 
 
+CLAUSE = {1: "replacement-started-before-old-stopped", 2: "leaked", 3: "count-wrong", 4: "not-converged-extra",
+          5: "not-converged-missing", 6: "state-error", 7: "state-not-running", 8: "server-context-cancelled"}
+CLAUSE_TEXT = {
+    1: "the factory was called for an id while an earlier instance of that id was started and had not returned from Stop()",
+    2: "Run() returned while a server was started and never stopped",
+    3: "GetServerCount() differs from the number of servers started and not stopped",
+    4: "at an idle point a server runs that the last received map does not give that configuration",
+    5: "at an idle point the last received map wants a server that does not run although no start of that id failed",
+    6: "GetState() = Error",
+    7: "GetState() is not Running at an idle point",
+    8: "a server that was started and never stopped saw its context cancelled although nothing asked for it: the cluster does not run the server it counts",
+}
+
+
+def monitor_failure(mon):
+    """(clause name, text) from the extracted Coq monitor's verdict (index, clause code, token) - glue only"""
+    idx, code, tok = mon
+    return (CLAUSE.get(code, "clause-%d" % code),
+            "%s (C16 monitor clause %d, proved to hold on every schedule of the model: C16_monitor_sound) at event %d = %s"
+            % (CLAUSE_TEXT.get(code, "?"), code, idx, tok))
+
+
 def eval_trace(toks):
-    """The property on the implementation's observables.  Returns [(name, detail)]."""
+    """Predicates the Coq monitor does not have (unchanged-entry-stopped, stopped-twice) and, for the clauses it
+    has, a second independent evaluation that only adds readable detail to the report.  Returns [(name, detail)]."""
     bad = []
     created, order = {}, []
     stopcall, stopret = set(), set()
@@ -248,6 +271,9 @@ def run_batch(args, timeout):
     return scripts, traces, problems
 
 
+MONITOR = {}   # scenario name -> (event index, clause, token) of the extracted Coq monitor, filled by accept_traces
+
+
 def accept_traces(traces, fuel=20000):
     inp = "".join("T %s %s %s\n" % (n, d, " ".join(strip_trace(toks))) for n, (d, toks) in traces.items())
     p = subprocess.run([os.path.join(C.BIN, "cluster_model"), "runner", str(fuel)], input=inp.encode(),
@@ -257,6 +283,8 @@ def accept_traces(traces, fuel=20000):
         t = l.split(" ")
         if t[0] in ("ACCEPT", "REJECT", "INCONCLUSIVE", "BADTRACE"):
             verdict[t[1]] = (t[0], " ".join(t[2:]))
+        elif t[0] == "MONITOR":
+            MONITOR[t[1]] = (int(t[2]), int(t[3]), t[4] if len(t) > 4 else "")
         elif t[0] == "MODELPROP":
             verdict["!modelprop"] = ("MODELPROP", " ".join(t[1:]))
         elif t[0] == "SUMMARY":
@@ -273,7 +301,9 @@ def runner_leg(run, args, stats, samples, timeout=1500):
         scripts.pop(n, None)
         problems.pop(n, None)
     stats["timing_stalls_discarded"] = stats.get("timing_stalls_discarded", 0) + len(stalled)
+    MONITOR.clear()
     verdict, summ, ok = accept_traces(traces)
+    mon = dict(MONITOR)   # verdicts of the extracted Coq monitor for THIS batch (later acceptor calls reuse names)
     if not ok or (scripts and not summ):
         run.violation("harness-failed", {"args": args}, "C16 acceptor driver failed to run", True)
         return
@@ -347,6 +377,10 @@ def runner_leg(run, args, stats, samples, timeout=1500):
                 feats[f] = feats.get(f, 0) + 1
         v, info = verdict.get(name, ("MISSING", ""))
         bad = eval_trace(st)
+        if name in mon:   # the Coq monitor's verdict comes first; the Python detail (if any) follows
+            bad = [monitor_failure(mon[name])] + bad
+            stats["monitor_failures"] = stats.get("monitor_failures", 0) + 1
+        stats["monitor_evaluated"] = stats.get("monitor_evaluated", 0) + 1
         payload = {"kind": "runner", "script": sc, "trace": " ".join(st), "acceptor": v + " " + info,
                    "property_failures": ["%s: %s" % b for b in bad],
                    "how": "build/bin/cluster -mode runner -script '<script>'"}
@@ -498,11 +532,14 @@ def replay(path):
         scripts, traces, problems = run_batch(["-file", f.name, "-jobs", "2"], 300)
         os.unlink(f.name)
         traces = {k: v for k, v in traces.items() if "TIMING" not in v[1]}
+        MONITOR.clear()
         verdict, summ, ok = accept_traces(traces)
         failed = 0
         for n, (d, toks) in sorted(traces.items()):
             st = strip_trace(toks)
             bad = eval_trace(st)
+            if n in MONITOR:
+                bad = [monitor_failure(MONITOR[n])] + bad
             v = verdict.get(n, ("MISSING", ""))
             print(n, v[0], v[1], "|", "; ".join(b[1] for b in bad) or "property holds on this trace")
             if bad or v[0] != "ACCEPT":
